@@ -202,7 +202,7 @@ fn one(w: &mut World, i: usize, st: &Step, c: &mut Counters) -> Result<Option<(u
                     let label = first_diff_label(&ro, &mo);
                     let mut p = props();
                     // "reports malformed input as None or Err" (C15): an accept/reject disagreement of a decoder fed untrusted bytes
-                    if untrusted(st) && matches!(label.as_str(), "some" | "ok" | "key_ok" | "sig_ok") && !p.contains(&"C15".to_string()) {
+                    if untrusted(st) && matches!(label.as_str(), "some" | "ok" | "key_ok" | "sig_ok" | "repr_ok" | "valid") && !p.contains(&"C15".to_string()) {
                         p.push("C15".into());
                     }
                     // the signer's verification wrappers are verification paths too (C09)
